@@ -30,7 +30,7 @@ THEOREMS = [
     'Px.Conn.C01_flush_fifo', 'Px.Relay.C01_tunnel_down', 'Px.Relay.C01_tunnel_up',
     'Px.Relay.C01_http_down', 'Px.Relay.C01_only_injection', 'Px.Relay.C01_pending_is_suffix',
     'Px.Conn.C01_progress', 'Px.Relay.C01_progress_tick', 'Px.Relay.C01_no_empty_elements',
-    'Px.Relay.C01_tunnel_early',
+    'Px.Relay.C01_tunnel_early', 'Px.Relay.C01_not_reaped_while_pending',
 ]
 RULE = ('flush: op sequences (queue sizes 0..140 KiB straddling max_send, every send outcome) on the real '
         'TcpClientConnection/TcpServerConnection vs Conn.flush; relay: tick schedules (readiness subsets, every '
@@ -483,6 +483,15 @@ def oracle(case):
     terminal = False     # something happened after which the proxy may stop relaying
     for i, st in enumerate(r['steps']):
         if st.get('reap'):
+            # nothing pending is dropped by an idle check: the reaper (real is_inactive() / real
+            # Threadless._cleanup_inactive(), any clock reading, any timeout, before or after the
+            # upstream's close) closes the connection only when everything received has been delivered
+            if st['closed'] and st['pending']:
+                return 'reaper closed the connection with relayed bytes still pending'
+            if st['closed'] and sent_c != inj + recv_u:
+                return 'reaper closed the connection before everything received was delivered'
+            if sent_c + st['cflat'] != inj + recv_u:
+                return 'downstream: delivered+pending differs from received (at a reaper event)'
             continue
         # the relay keeps going: while neither peer has closed / failed (and the client sent nothing
         # that ends a plain-HTTP exchange), upstream read interest stays registered, a readable
@@ -906,6 +915,51 @@ def systematic(depth, menu=None, setup='tunnel', mx=2):
             yield relay_case(setup, [menu[i] for i in combo], mx)
 
 
+def with_reaps(rng, case):
+    """interleave idle-reaper events (clock far beyond / around / below the timeout; timeouts
+    positive, zero and negative) into a relay schedule"""
+    T = rng.choice([10, 10, 1, 0, 0, -1, -3, 2])
+    tu = T * UNIT
+
+    def elapsed():
+        return max(0, rng.choice([tu - 1, tu, tu + 1, tu + 1, 0, 1, tu + 5 * UNIT, 10 ** 7, 10 ** 9, rng.randrange(0, 40000)]))
+    ticks = []
+    p = rng.choice([0.2, 0.5, 1.0])
+    for t in case['ticks']:
+        while rng.random() < p * 0.6:
+            ticks.append(['R', elapsed()])
+        ticks.append(t)
+    ticks.append(['R', elapsed()])
+    if rng.random() < 0.5:
+        ticks.append(['R', tu + 1 + rng.randrange(0, 5000)])
+    return dict(case, ticks=ticks, timeout=T)
+
+
+def reap_cases(rng, n):
+    """relay schedules with the idle reaper looking in: systematic (pending / drained x before / after the
+    upstream's close x clock below, at, above, far beyond the timeout x timeout sign) and random"""
+    up = ['m0010', 'b', 'b', ['d', {'hex': 'a1b2c3d4'}], 'b']
+    eof = ['m0010', 'b', 'b', 'e', 'b']
+    part = ['m0100', 'b', ['s', 1], 'b', 'b']
+    drain = ['m0100', 'b', ['s', 10 ** 6], 'b', 'b']
+    for setup in ('tunnel', 'http'):
+        for T in (-2, 0, 1, 10):
+            tu = T * UNIT
+            for e in sorted({0, max(0, tu - 1), max(0, tu), max(1, tu + 1), tu + 5 * UNIT if tu > 0 else 5 * UNIT, 10 ** 8}):
+                r_ = ['R', e]
+                yield dict(relay_case(setup, [r_, up, r_, part, r_, eof, r_, part, r_, drain, drain, r_], 64), timeout=T)
+                yield dict(relay_case(setup, [up, up, r_, drain, drain, drain, r_, up, r_, eof, r_, drain, r_], 64), timeout=T)
+    for _ in range(n):
+        k = rng.random()
+        if k < 0.5:
+            c = gen_relay_case(rng, rng.choice(['tunnel', 'http']))
+        else:
+            data, bounds = structured_stream(rng)
+            c = relay_case('http', stream_schedule(rng, struct_cut(rng, data, bounds), None, eof=True, slow=0.5),
+                           rng.choice([None, 3, 8]))
+        yield with_reaps(rng, c)
+
+
 def generate(rng, tier):
     big = tier == 'thorough'
     for _ in range(2000 if not big else 20000):
@@ -919,6 +973,8 @@ def generate(rng, tier):
     for c in structural_systematic(rng, 1 if not big else 6):
         yield c
     for c in early_cases(rng, 300 if not big else 4000, big):
+        yield c
+    for c in reap_cases(rng, 600 if not big else 8000):
         yield c
     if big:
         for c in systematic(4, mx=1):
@@ -947,7 +1003,7 @@ def search(rng):
     out = list(systematic(3))
     out += [gen_relay_case(rng, 'tunnel') for _ in range(1500)]
     out += [gen_relay_case(rng, 'http') for _ in range(800)] + list(structural_systematic(rng, 1))
-    out += list(early_cases(rng, 200))
+    out += list(early_cases(rng, 200)) + list(reap_cases(rng, 400))
     out += [gen_flush_case(rng, False) for _ in range(1500)] + [gen_flush_case(rng, True) for _ in range(10)]
     return out
 
